@@ -153,7 +153,11 @@ def _is_str_expr(ctx, fi, e, fields, depth=0) -> str:
     return "unknown"
 
 
+_maybe_cache: dict = {}
+
+
 def rule_str(ctx: Ctx) -> RuleReport:
+    _maybe_cache.clear()
     rep = RuleReport("C04-STR", "text accessors return str; constructor sites never pass a possibly-None value to a str field")
     dt = ctx.p.module(DT)
     dcs = {c.name: c for c in dt.classes.values() if c.is_dataclass}
@@ -206,7 +210,8 @@ def rule_str(ctx: Ctx) -> RuleReport:
         if not sites:
             continue
         cfg = ctx.cfg(fi)
-        nl = Nullness(fi.node, cfg)
+        from sa.engine.nullness import maybe_none_functions
+        nl = Nullness(fi.node, cfg, maybe_funcs=_maybe_cache.setdefault(fi.module.rel, maybe_none_functions(ctx, fi.module.rel)) if True else None)
         for c in sites:
             cname = (dotted(c.func) or "").split(".")[-1]
             env = nl.env_at(c)
